@@ -2,7 +2,7 @@
    Arithmetic is exact (Q); equality of coordinates is Qeq componentwise ([veq], [aeq]).
    Unit direction cosines enter as the hypothesis [orthonormal r c]. *)
 From Coq Require Import String Ascii ZArith List Bool QArith Qabs Qround.
-From HD Require Import Base.Val C10_Model C10_Proofs C10_Proofs_T C10_Proofs_L C10_Proofs_V C10_Proofs_D C10_Proofs_S.
+From HD Require Import Base.Val C10_Model C10_Proofs C10_Proofs_T C10_Proofs_L C10_Proofs_V C10_Proofs_D C10_Proofs_S C10_Proofs_X.
 Import ListNotations.
 Open Scope Q_scope.
 
@@ -508,3 +508,125 @@ Theorem C10_volume_more_accessors pos r c sr sc ss nf rows cols :
     (forall p, veq (aapply B (aapply (g_aff G) p)) p /\ veq (aapply (g_aff G) (aapply B p)) p).
 Proof. exact (volume_more_accessors pos r c sr sc ss nf rows cols). Qed.
 Print Assumptions C10_volume_more_accessors.
+
+(* ---------------- index arrays of any integer dtype ---------------- *)
+(* PixelToReference / PixelToPixel (constructor or for_images): an index array of ANY signed or unsigned
+   integer dtype that can hold the indices is answered exactly like the default integer array *)
+Theorem C10_index_dtype_irrelevant dt w pts :
+  dt_is_index dt = true -> forallb (forallb (dt_holds dt)) pts = true ->
+  (forall pos ori sp, run_p2r_dt pos ori sp w dt pts = run_p2r pos ori sp w true pts) /\
+  (forall pf of_ sf pt ot st round,
+     run_p2p_dt pf of_ sf pt ot st round w dt pts = run_p2p pf of_ sf pt ot st round w true pts) /\
+  (forall a b fa fb ta tb round,
+     run_for_images_dt a b fa fb ta tb round dt pts =
+     with_aff (for_images_p2p a b fa fb ta tb) (fun A => call_p 2 true pts (fun l => vpts (p2p_call A round l)))).
+Proof. exact (index_dtype_irrelevant dt w pts). Qed.
+Print Assumptions C10_index_dtype_irrelevant.
+
+(* the rounded pixel-to-pixel result is the (int64) rounding of R2P_to(P2R_from(p)) - it is what the
+   rounded ReferenceToPixel transformer of the target answers on the reference position of p *)
+Theorem C10_p2p_rounded_via_reference pf of_ sf pt ot st T :
+  p2p_make pf of_ sf pt ot st = Ok T ->
+  exists P Rv, p2r_make pf of_ sf = Ok P /\ r2p_make pt ot st 1 = Ok Rv /\
+    forall pts,
+      p2p_call T true pts = OutZ2 (map (fun p => (rne (vx (via2 P Rv p)), rne (vy (via2 P Rv p)))) pts) /\
+      r2p_call Rv true false (call_2to3 P pts)
+      = Ok (OutZ3 (map (fun p => (rne (vx (via2 P Rv p)), rne (vy (via2 P Rv p)), rne (vz (via2 P Rv p)))) pts)).
+Proof. exact (p2p_rounded_via_reference pf of_ sf pt ot st T). Qed.
+Print Assumptions C10_p2p_rounded_via_reference.
+
+(* at the harness boundary: integer indices zs held in ANY index dtype give, rounded, the rounding of the
+   point reached through the frame of reference (negative and large results included: no wrap-around),
+   and, un-rounded, the affine image *)
+Theorem C10_p2p_any_index_dtype pf of_ sf pt ot st T dt (zs : list (Z * Z)) :
+  p2p_make pf of_ sf pt ot st = Ok T -> dt_is_index dt = true -> Forall (dt_fits dt) zs ->
+  exists P Rv, p2r_make pf of_ sf = Ok P /\ r2p_make pt ot st 1 = Ok Rv /\
+    run_p2p_dt pf of_ sf pt ot st true 2 dt (map zrow zs)
+    = VL [vaff T; VL (map (fun p => VL [VZ (rne (vx (via2 P Rv (zpt p)))); VZ (rne (vy (via2 P Rv (zpt p))))]) zs)] /\
+    run_p2p_dt pf of_ sf pt ot st false 2 dt (map zrow zs)
+    = VL [vaff T; VL (map (fun p => VL [VQ (vx (aapply T (V3 (inject_Z (fst p)) (inject_Z (snd p)) 0)));
+                                         VQ (vy (aapply T (V3 (inject_Z (fst p)) (inject_Z (snd p)) 0)))]) zs)].
+Proof. exact (p2p_any_index_dtype pf of_ sf pt ot st T dt zs). Qed.
+Print Assumptions C10_p2p_any_index_dtype.
+
+(* float / bool arrays: TypeError from the call *)
+Theorem C10_non_index_dtype_refused dt pts pf of_ sf pt ot st round T :
+  dt_is_index dt = false -> forallb (forallb (dt_holds dt)) pts = true ->
+  p2p_make pf of_ sf pt ot st = Ok T ->
+  run_p2p_dt pf of_ sf pt ot st round 2 dt pts = VL [vaff T; VErr EType].
+Proof. exact (non_index_dtype_refused dt pts pf of_ sf pt ot st round T). Qed.
+Print Assumptions C10_non_index_dtype_refused.
+
+(* ---------------- Volume with channel dimensions ---------------- *)
+(* Volume.__init__: accepted iff orthogonal affine, >= 3 dimensions, one value list of the right length per
+   channel dimension; the spatial shape is the FIRST three sizes of the array *)
+Theorem C10_vol_make_ok_iff A ashape ch G :
+  vol_make A ashape ch = Ok G <->
+  (is_orthogonal (lin A) false tol5 = true /\ (3 <= length ashape)%nat /\ ch = skipn 3 ashape /\
+   G = Geom A (firstn 3 ashape)).
+Proof. exact (vol_make_ok_iff A ashape ch G). Qed.
+Print Assumptions C10_vol_make_ok_iff.
+
+(* for EVERY argument combination (refusals included) and every list of channel sizes, the geometry of
+   Volume.from_components(array of shape spatial ++ channels) is that of
+   VolumeGeometry.from_components(spatial shape); same for from_attributes *)
+Theorem C10_volume_channels_irrelevant n0 n1 n2 ch sp position center direction po cs :
+  vol_from_components ([n0; n1; n2] ++ ch) ch sp position center direction po cs =
+  geom_from_components [n0; n1; n2] sp position center direction po cs.
+Proof. exact (vol_channels_irrelevant n0 n1 n2 ch sp position center direction po cs). Qed.
+Print Assumptions C10_volume_channels_irrelevant.
+
+Theorem C10_volume_attr_channels_irrelevant nf rows cols ch pos ori sp ss :
+  vol_from_attributes ([nf; rows; cols] ++ ch) ch pos ori sp ss = geom_from_attributes pos ori sp ss nf rows cols.
+Proof. exact (vol_attr_channels_irrelevant nf rows cols ch pos ori sp ss). Qed.
+Print Assumptions C10_volume_attr_channels_irrelevant.
+
+Theorem C10_geom_with_array_same G n0 n1 n2 ch :
+  g_shape G = [n0; n1; n2] -> is_orthogonal (lin (g_aff G)) false tol5 = true ->
+  geom_with_array G ([n0; n1; n2] ++ ch) ch = Ok G.
+Proof. exact (geom_with_array_same G n0 n1 n2 ch). Qed.
+Print Assumptions C10_geom_with_array_same.
+
+(* Volume.from_components(array (n0, n1, n2) ++ channels, center_position=cp): accepted; orthogonal axes of the
+   given lengths; center_position returns cp; cp maps back (bounds check on) to the centre index of the
+   three SPATIAL axes - whatever the channel dimensions are *)
+Theorem C10_volume_components_centre sp s0 s1 s2 D cp n0 n1 n2 ch cs :
+  sarg3 sp = Some (s0, s1, s2) -> 0 < s0 -> 0 < s1 -> 0 < s2 ->
+  ortho_cols D -> veq (norms_sq D) (V3 1 1 1) -> (0 <= n0)%Z -> (0 <= n1)%Z -> (0 <= n2)%Z ->
+  exists G c i,
+    vol_from_components ([n0; n1; n2] ++ ch) ch sp None (Some [vx cp; vy cp; vz cp]) (Some (rows_of D)) None cs = Ok G /\
+    geom_from_components [n0; n1; n2] sp None (Some [vx cp; vy cp; vz cp]) (Some (rows_of D)) None cs = Ok G /\
+    g_shape G = [n0; n1; n2] /\
+    ortho_cols (lin (g_aff G)) /\ veq (norms_sq (lin (g_aff G))) (V3 (s0 * s0) (s1 * s1) (s2 * s2)) /\
+    g_center_position G = Ok c /\ veq c cp /\
+    g_center_indices G = Ok (centre_index n0 n1 n2) /\
+    g_map_reference_to_indices_checked G [c] = Ok [i] /\ veq i (centre_index n0 n1 n2).
+Proof. exact (vol_components_centre sp s0 s1 s2 D cp n0 n1 n2 ch cs). Qed.
+Print Assumptions C10_volume_components_centre.
+
+(* non-vacuity: uint16 indices whose image is negative; an RGB volume (20, 20, 50, 3) anchored by its centre *)
+Example C10_dtype_volume_example :
+  dt_is_index (DT KUnsigned 16) = true /\ Forall (dt_fits (DT KUnsigned 16)) [(0, 3); (65535, 0)]%Z /\
+  run_p2p_dt (ASeq [56; 34; 1]) (ASeq [1; 0; 0; 0; 1; 0]) (ASeq [1; 1])
+             (ASeq [66; 32; 1]) (ASeq [1; 0; 0; 0; 1; 0]) (ASeq [1; 1]) true 2 (DT KUnsigned 16) [[0; 3]; [65535; 0]]
+  = match run_p2p_dt (ASeq [56; 34; 1]) (ASeq [1; 0; 0; 0; 1; 0]) (ASeq [1; 1])
+             (ASeq [66; 32; 1]) (ASeq [1; 0; 0; 0; 1; 0]) (ASeq [1; 1]) true 2 dt_int64 []
+    with VL [a; _] => VL [a; VL [VL [VZ (-10); VZ 5]; VL [VZ 65525; VZ 2]]] | v => v end /\
+  match run_p2p_dt (ASeq [56; 34; 1]) (ASeq [1; 0; 0; 0; 1; 0]) (ASeq [1; 1])
+             (ASeq [66; 32; 1]) (ASeq [1; 0; 0; 0; 1; 0]) (ASeq [1; 1]) true 2 (DT KUnsigned 16) [[-1; 3]]
+  with VL [_; e] => e = VErr "harness" | _ => False end /\
+  (exists G c, vol_from_components [20; 20; 50; 3]%Z [3]%Z (SSeq [1 # 2; 5 # 4; 2]) None (Some [10; 20; 30])
+                 (Some [1; 0; 0; 0; 1; 0; 0; 0; 1]) None true = Ok G /\
+     g_shape G = [20; 20; 50]%Z /\ g_center_position G = Ok c /\ veq c (V3 10 20 30) /\
+     veq (g_position G) (V3 (10 - (19 # 4)) (20 - (95 # 8)) (30 - 49)) /\
+     g_map_reference_to_indices_checked G [aapply (g_aff G) (V3 20 0 0)] = Err ERuntime /\
+     vol_from_components [20; 20; 50; 3]%Z [4]%Z (SSeq [1 # 2; 5 # 4; 2]) None (Some [10; 20; 30])
+                 (Some [1; 0; 0; 0; 1; 0; 0; 0; 1]) None true = Err EValue).
+Proof.
+  split; [reflexivity|]. split; [repeat constructor; vm_compute; discriminate|].
+  split; [vm_compute; reflexivity|]. split; [vm_compute; reflexivity|].
+  eexists. eexists. split; [vm_compute; reflexivity|]. split; [reflexivity|].
+  split; [vm_compute; reflexivity|]. split; [vm_compute; repeat split; reflexivity|].
+  split; [vm_compute; repeat split; reflexivity|]. split; vm_compute; reflexivity.
+Qed.
+Print Assumptions C10_dtype_volume_example.
